@@ -1221,9 +1221,16 @@ class TaskPool:
                 if (
                     itask.point > stop_point
                     and itask.state(TASK_STATUS_WAITING)
-                    and itask.state_reset(is_runahead=True)
                 ):
-                    self.data_store_mgr.delta_task_state(itask)
+                    if not itask.is_manual_submit:
+                        # Already queued to run (e.g. waiting in a limited
+                        # queue, or the workflow is paused): take it out of
+                        # the queue or it would be released beyond the stop
+                        # point. It is queued again when released from the
+                        # runahead limit (if the stop point is moved on).
+                        self.unqueue_task(itask)
+                    if itask.state_reset(is_runahead=True):
+                        self.data_store_mgr.delta_task_state(itask)
         return True
 
     def can_stop(self, stop_mode):
